@@ -30,6 +30,19 @@ func init() {
 				// keep documents without any command step rare
 				steps.l = append(steps.l, g.signableStep())
 			}
+			if i%3 == 0 && len(steps.l) > 0 {
+				// (the pipeline is interpolated before it is signed) a mapping under a signed field in which a key
+				// written with a variable expands onto another key: the renamed-over entry must not come back in
+				// either output format
+				last := steps.l[len(steps.l)-1]
+				if last.kind == 'm' && (last.has("command") || last.has("commands") || last.has("plugins")) {
+					pools := dMap(dkv{"$POOLVAR", dStr("renamed")}, dkv{"vfoo", dStr("literal")})
+					if rng.Chance(50) {
+						pools = dMap(dkv{"vfoo", dStr("literal")}, dkv{"other", dInt(1)}, dkv{"${POOLVAR}", dStr("renamed")})
+					}
+					last.set("matrix", dMap(dkv{"setup", dMap(dkv{"os", dList(dStr("linux"), dStr("mac"))})}, dkv{"pools", pools}))
+				}
+			}
 			doc := dMap(dkv{"steps", steps})
 			if len(penv) > 0 && rng.Chance(60) {
 				e := dMap()
@@ -52,7 +65,7 @@ func init() {
 			key := keys[ki]
 			if i%3 == 0 {
 				// optionally interpolated first (env references in the generated strings are $FOO / $$X)
-				if err := p.Interpolate(&hEnv{m: map[string]string{"FOO": "vfoo"}}, false); err != nil {
+				if err := p.Interpolate(&hEnv{m: map[string]string{"FOO": "vfoo", "POOLVAR": "vfoo"}}, false); err != nil {
 					continue
 				}
 			}
